@@ -319,6 +319,16 @@ func (q *Queue) SetIndexed(opts IndexOptions, state indexState) {
 func (q *Queue) MaybeRemoveMissing(ids []uint32) []uint32 {
 	q.mu.Lock()
 	sameSize := len(q.items) == len(ids)
+	if sameSize {
+		// The same size only means "nothing to remove" if it is the same set:
+		// with one repository gone and another one new the sizes agree too.
+		for _, id := range ids {
+			if _, ok := q.items[id]; !ok {
+				sameSize = false
+				break
+			}
+		}
+	}
 	q.mu.Unlock()
 
 	// heuristically skip expensive work
